@@ -8,7 +8,7 @@ finite byte facts are decided over all 256 values, and the per-entry facts of th
 tables are checked by one linear pass (`allPairs`) evaluated by the kernel.
 -/
 namespace AslProofs.Utf
-open AslModel.Utf AslProofs.Bits
+open AslModel.Utf AslProofs.Bits Gen.Unicode
 
 /-! ## bits -/
 
@@ -741,5 +741,330 @@ theorem enum_ascii (s : List UInt8) (h : ∀ b ∈ s, b ≠ 0 ∧ b.toNat < 128)
     simp only [hb.1, if_false, is1_true hb.2, if_true]
     rw [ih (fun c hc => h c (by simp [hc]))]
     simp
+
+/-! ## unique decodability of the lower-cased forms (for `nocase_iff_lower_eq`) -/
+
+/-- a continuation byte 0x80–0xBF -/
+def cont (b : UInt8) : Prop := 128 ≤ b.toNat ∧ b.toNat < 192
+
+/-- the shapes of the byte groups `toLowerCase` emits per code point: an ASCII byte, a two-byte table entry or
+    2-byte encoding with a lead first byte, a 3- or 4-byte encoding whose last bytes are continuation bytes -/
+def Word (w : List UInt8) : Prop :=
+  (∃ b, w = [b] ∧ b.toNat < 128) ∨ (∃ a b, w = [a, b] ∧ 192 ≤ a.toNat) ∨
+  (∃ a b c, w = [a, b, c] ∧ 192 ≤ a.toNat ∧ cont c) ∨ (∃ a b c d, w = [a, b, c, d] ∧ 192 ≤ a.toNat ∧ cont c ∧ cont d)
+
+theorem Word.ne_nil {w : List UInt8} (h : Word w) : w ≠ [] := by
+  rcases h with ⟨b, rfl, _⟩ | ⟨a, b, rfl, _⟩ | ⟨a, b, c, rfl, _⟩ | ⟨a, b, c, d, rfl, _⟩ <;> simp
+
+theorem Word.head_not_cont {w : List UInt8} (h : Word w) (x : UInt8) (r : List UInt8) (e : w = x :: r) : ¬ cont x := by
+  unfold cont
+  rcases h with ⟨b, rfl, hb⟩ | ⟨a, b, rfl, ha⟩ | ⟨a, b, c, rfl, ha, _⟩ | ⟨a, b, c, d, rfl, ha, _⟩ <;>
+    (simp only [List.cons.injEq] at e; obtain ⟨rfl, _⟩ := e; omega)
+
+theorem flatten_head_not_cont (A : List (List UInt8)) (hA : ∀ w ∈ A, Word w) (x : UInt8) (r : List UInt8)
+    (e : A.flatten = x :: r) : ¬ cont x := by
+  cases A with
+  | nil => simp at e
+  | cons w A' =>
+    have hw := hA w (by simp)
+    simp only [List.flatten_cons] at e
+    match w, hw.ne_nil with
+    | y :: w', _ =>
+      simp only [List.cons_append, List.cons.injEq] at e
+      obtain ⟨rfl, _⟩ := e
+      exact hw.head_not_cont y w' rfl
+
+theorem word_head_eq {w1 w2 x1 x2 : List UInt8} (h1 : Word w1) (h2 : Word w2)
+    (n1 : ∀ x r, x1 = x :: r → ¬ cont x) (n2 : ∀ x r, x2 = x :: r → ¬ cont x)
+    (e : w1 ++ x1 = w2 ++ x2) : w1 = w2 := by
+  rcases h1 with ⟨b, rfl, hb⟩ | ⟨a, b, rfl, ha⟩ | ⟨a, b, c, rfl, ha, hc⟩ | ⟨a, b, c, d, rfl, ha, hc, hd⟩ <;>
+  rcases h2 with ⟨b', rfl, hb'⟩ | ⟨a', b', rfl, ha'⟩ | ⟨a', b', c', rfl, ha', hc'⟩ | ⟨a', b', c', d', rfl, ha', hc', hd'⟩ <;>
+  simp only [List.cons_append, List.nil_append, List.cons.injEq] at e
+  all_goals first
+    | (exfalso; obtain ⟨rfl, _⟩ := e; omega)
+    | (exfalso; exact n1 _ _ e.2.2 (by assumption))
+    | (exfalso; exact n1 _ _ e.2.2.2 (by assumption))
+    | (exfalso; exact n2 _ _ e.2.2.symm (by assumption))
+    | (exfalso; exact n2 _ _ e.2.2.2.symm (by assumption))
+    | (simp [e.1]; done)
+    | (simp [e.1, e.2.1]; done)
+    | (simp [e.1, e.2.1, e.2.2.1]; done)
+    | (simp [e.1, e.2.1, e.2.2.1, e.2.2.2.1]; done)
+
+theorem flatten_inj (A B : List (List UInt8)) (hA : ∀ w ∈ A, Word w) (hB : ∀ w ∈ B, Word w)
+    (e : A.flatten = B.flatten) : A = B := by
+  induction A generalizing B with
+  | nil =>
+    cases B with
+    | nil => rfl
+    | cons w B' =>
+      exfalso
+      have := (hB w (by simp)).ne_nil
+      simp only [List.flatten_nil, List.flatten_cons] at e
+      cases w with
+      | nil => exact this rfl
+      | cons y w' => simp at e
+  | cons w1 A' ih =>
+    cases B with
+    | nil =>
+      exfalso
+      have := (hA w1 (by simp)).ne_nil
+      simp only [List.flatten_nil, List.flatten_cons] at e
+      cases w1 with
+      | nil => exact this rfl
+      | cons y w' => simp at e
+    | cons w2 B' =>
+      simp only [List.flatten_cons] at e
+      have hA' : ∀ w ∈ A', Word w := fun w hw => hA w (by simp [hw])
+      have hB' : ∀ w ∈ B', Word w := fun w hw => hB w (by simp [hw])
+      have hw : w1 = w2 := word_head_eq (hA w1 (by simp)) (hB w2 (by simp))
+        (fun x r ex => flatten_head_not_cont A' hA' x r ex) (fun x r ex => flatten_head_not_cont B' hB' x r ex) e
+      subst hw
+      rw [ih B' hA' hB' (List.append_cancel_left e)]
+
+theorem ofNat_toNat_ge {x : Nat} (h : x < 256) : (UInt8.ofNat x).toNat = x := ofNat_toNat_lt h
+
+/-- every group emitted for a code point below 2^21 is a `Word` (table shape fact + the encoder's arithmetic form) -/
+theorem word_of_mapCode (t : Array UInt8) (cut : Nat) (hs : allPairs shapeOK 0 t.toList = true)
+    (hcut : 128 ≤ cut) (hsz : cut * 2 ≤ t.size) (code : Nat) (hc : code < 2097152) : Word (mapCode t cut code) := by
+  unfold mapCode
+  split
+  · rename_i hlt
+    have := table_fact shapeOK t hs code (by omega)
+    unfold shapeOK at this
+    simp only [Bool.and_eq_true] at this
+    simp only [tableBytes]
+    by_cases h2 : t.getD (code * 2 + 1) 0 = 0
+    · have h1 := this.2
+      simp only [h2, beq_self_eq_true, if_true, decide_eq_true_eq] at h1
+      left
+      refine ⟨t.getD (code * 2) 0, by simp [h2], ?_⟩
+      exact UInt8.lt_iff_toNat_lt.mp h1
+    · have h1 := this.2
+      have hb : (t.getD (code * 2 + 1) 0 == 0) = false := by simpa using h2
+      simp only [hb, Bool.false_eq_true, if_false, decide_eq_true_eq] at h1
+      right; left
+      have hne : (t.getD (code * 2 + 1) 0 != 0) = true := by simpa using h2
+      refine ⟨t.getD (code * 2) 0, t.getD (code * 2 + 1) 0, by rw [if_pos hne], ?_⟩
+      exact UInt8.le_iff_toNat_le.mp h1
+  · rename_i hge
+    rw [reencode_eq code (by omega)]
+    unfold enc32
+    have a1 : ¬ ((code : Int) < 0x80) := by omega
+    simp only [a1, if_false, Int.toNat_natCast]
+    by_cases h2 : code < 0x800
+    · have : (code : Int) < 0x800 := by omega
+      simp only [this, if_true]
+      rw [enc2_arith code h2]
+      right; left
+      exact ⟨_, _, rfl, by rw [ofNat_toNat_lt (by omega)]; omega⟩
+    · have b2 : ¬ ((code : Int) < 0x800) := by omega
+      by_cases h3 : code < 0x10000
+      · have : (code : Int) < 0x10000 := by omega
+        simp only [b2, this, if_true, if_false]
+        rw [enc3_arith code h3]
+        right; right; left
+        refine ⟨_, _, _, rfl, by rw [ofNat_toNat_lt (by omega)]; omega, ?_⟩
+        unfold cont; rw [ofNat_toNat_lt (by omega)]; omega
+      · have b3 : ¬ ((code : Int) < 0x10000) := by omega
+        simp only [b2, b3, if_false]
+        rw [enc4_arith code hc]
+        right; right; right
+        refine ⟨_, _, _, _, rfl, by rw [ofNat_toNat_lt (by omega)]; omega, ?_, ?_⟩
+        · unfold cont; rw [ofNat_toNat_lt (by omega)]; omega
+        · unfold cont; rw [ofNat_toNat_lt (by omega)]; omega
+
+theorem ofNat_inj {x y : Nat} (hx : x < 256) (hy : y < 256) (h : UInt8.ofNat x = UInt8.ofNat y) : x = y := by
+  have := congrArg UInt8.toNat h
+  rwa [ofNat_toNat_lt hx, ofNat_toNat_lt hy] at this
+
+/-- the encoder's arithmetic form from 128 up to 2^21 -/
+theorem enc32_nat (c : Nat) (h : 128 ≤ c) (h' : c < 2097152) :
+    enc32 (c : Int) =
+      if c < 0x800 then [UInt8.ofNat (c / 64 + 192), UInt8.ofNat (c % 64 + 128)]
+      else if c < 0x10000 then
+        [UInt8.ofNat (c / 4096 + 224), UInt8.ofNat (c / 64 % 64 + 128), UInt8.ofNat (c % 64 + 128)]
+      else [UInt8.ofNat (c / 262144 + 240), UInt8.ofNat (c / 4096 % 64 + 128), UInt8.ofNat (c / 64 % 64 + 128),
+        UInt8.ofNat (c % 64 + 128)] := by
+  unfold enc32
+  have a1 : ¬ ((c : Int) < 0x80) := by omega
+  simp only [a1, if_false, Int.toNat_natCast]
+  by_cases h2 : c < 0x800
+  · have : (c : Int) < 0x800 := by omega
+    simp only [this, h2, if_true, enc2_arith c h2]
+  · have b2 : ¬ ((c : Int) < 0x800) := by omega
+    by_cases h3 : c < 0x10000
+    · have : (c : Int) < 0x10000 := by omega
+      simp only [b2, this, h2, h3, if_true, if_false, enc3_arith c h3]
+    · have b3 : ¬ ((c : Int) < 0x10000) := by omega
+      simp only [b2, b3, h2, h3, if_false, enc4_arith c h']
+
+theorem enc32_inj (c d : Nat) (hc : 128 ≤ c) (hc' : c < 2097152) (hd : 128 ≤ d) (hd' : d < 2097152)
+    (e : enc32 (c : Int) = enc32 (d : Int)) : c = d := by
+  rw [enc32_nat c hc hc', enc32_nat d hd hd'] at e
+  split at e <;> split at e <;> (try split at e) <;> (try split at e) <;>
+    simp only [List.cons.injEq, and_true, reduceCtorEq, List.ne_cons_self, and_false] at e
+  · have e1 := ofNat_inj (by omega) (by omega) e.1
+    have e2 := ofNat_inj (by omega) (by omega) e.2
+    omega
+  · have e1 := ofNat_inj (by omega) (by omega) e.1
+    have e2 := ofNat_inj (by omega) (by omega) e.2.1
+    have e3 := ofNat_inj (by omega) (by omega) e.2.2
+    omega
+  · have e1 := ofNat_inj (by omega) (by omega) e.1
+    have e2 := ofNat_inj (by omega) (by omega) e.2.1
+    have e3 := ofNat_inj (by omega) (by omega) e.2.2.1
+    have e4 := ofNat_inj (by omega) (by omega) e.2.2.2
+    omega
+
+/-- `tableBytes` determines both table bytes -/
+theorem tableBytes_eq_iff (t : Array UInt8) (c d : Nat) :
+    tableBytes t c = tableBytes t d ↔
+      (t.getD (c * 2) 0 = t.getD (d * 2) 0 ∧ t.getD (c * 2 + 1) 0 = t.getD (d * 2 + 1) 0) := by
+  simp only [tableBytes]
+  by_cases h1 : t.getD (c * 2 + 1) 0 = 0 <;> by_cases h2 : t.getD (d * 2 + 1) 0 = 0
+  · simp [h1, h2]
+  · have : (t.getD (d * 2 + 1) 0 != 0) = true := by simpa using h2
+    rw [if_neg (by simp [h1]), if_pos this]
+    constructor
+    · intro h; simp at h
+    · intro h; exact absurd (by rw [← h.2]; exact h1) h2
+  · have : (t.getD (c * 2 + 1) 0 != 0) = true := by simpa using h1
+    rw [if_pos this, if_neg (by simp [h2])]
+    constructor
+    · intro h; simp at h
+    · intro h; exact absurd (by rw [h.2]; exact h2) h1
+  · have a : (t.getD (c * 2 + 1) 0 != 0) = true := by simpa using h1
+    have b : (t.getD (d * 2 + 1) 0 != 0) = true := by simpa using h2
+    rw [if_pos a, if_pos b]
+    simp
+
+
+/-- bytes `toLowerCase` emits for one code point -/
+def lowerOf (code : Nat) : List UInt8 := mapCode toLowercaseU8 lowerCut code
+
+section nocase
+set_option linter.unusedSectionVars false
+variable (hs : allPairs shapeOK 0 toLowercaseU8.toList = true)
+  (ho : allPairs lowOrdOK 0 toLowercaseU8.toList = true)
+  (hce : toLowercaseU8.getD (1415 * 2) 0 = 0xD6 ∧ toLowercaseU8.getD (1415 * 2 + 1) 0 = 0x87)
+  (hsz : toLowercaseU8.size = 2887)
+include hs ho hce hsz
+
+theorem lowerOf_le (c : Nat) (h : c ≤ 1415) : lowerOf c = tableBytes toLowercaseU8 c := by
+  unfold lowerOf mapCode
+  have hcut : lowerCut = 1415 := rfl
+  rw [hcut]
+  by_cases h1 : c < 1415
+  · simp [h1]
+  · have : c = 1415 := by omega
+    subst this
+    have hr : reencode 1415 = [0xD6, 0x87] := by decide +kernel
+    simp only [Nat.lt_irrefl, if_false, hr, tableBytes, hce.1, hce.2]
+    decide
+
+theorem lowerOf_gt (c : Nat) (h : 1415 < c) : lowerOf c = enc32 (c : Int) := by
+  unfold lowerOf mapCode
+  have hcut : lowerCut = 1415 := rfl
+  rw [hcut, if_neg (by omega), reencode_eq c (by omega)]
+
+theorem enc_ne_table (c d : Nat) (hc : 1415 < c) (hc' : c < 2097152) (hd : d ≤ 1415) :
+    enc32 (c : Int) ≠ tableBytes toLowercaseU8 d := by
+  intro e
+  rw [enc32_nat c (by omega) hc'] at e
+  have hl := tableBytes_len toLowercaseU8 d
+  by_cases h2 : c < 0x800
+  · simp only [h2, if_true, tableBytes] at e
+    have hf := table_fact lowOrdOK toLowercaseU8 ho d (by omega)
+    unfold lowOrdOK at hf
+    have hd' : decide (1415 < d) = false := decide_eq_false (by omega)
+    simp only [hd', Bool.false_or] at hf
+    split at e
+    · simp only [List.cons.injEq, and_true] at e
+      obtain ⟨e1, e2⟩ := e
+      have t1 : (toLowercaseU8.getD (d * 2) 0).toNat = c / 64 + 192 := by
+        rw [← e1, ofNat_toNat_lt (by omega)]
+      have t2 : (toLowercaseU8.getD (d * 2 + 1) 0).toNat = c % 64 + 128 := by
+        rw [← e2, ofNat_toNat_lt (by omega)]
+      simp only [Bool.or_eq_true, Bool.and_eq_true, decide_eq_true_eq, beq_iff_eq] at hf
+      rcases hf with (hf | ⟨hf1, hf2⟩) | hf
+      · have := UInt8.lt_iff_toNat_lt.mp hf
+        rw [t1] at this
+        have : (0xD6 : UInt8).toNat = 214 := by decide
+        omega
+      · have a := congrArg UInt8.toNat hf1
+        rw [t1] at a
+        have b := UInt8.le_iff_toNat_le.mp hf2
+        rw [t2] at b
+        have : (0xD6 : UInt8).toNat = 214 := by decide
+        have : (0x87 : UInt8).toNat = 135 := by decide
+        omega
+      · have := UInt8.le_iff_toNat_le.mp hf
+        rw [t1] at this
+        have : (0xE0 : UInt8).toNat = 224 := by decide
+        omega
+    · simp at e
+  · rw [← e] at hl
+    simp only [h2, if_false] at hl
+    split at hl <;> simp at hl
+
+theorem step_iff (c d : Nat) (hc : c < 2097152) (hd : d < 2097152) :
+    nocaseStep c d = true ↔ lowerOf c = lowerOf d := by
+  unfold nocaseStep
+  have k1 : nocaseCut1 = 1415 := rfl
+  have k2 : nocaseCut2 = 1415 := rfl
+  rw [k1, k2]
+  by_cases hgt : c > 1415 ∨ d > 1415
+  · simp only [hgt, if_true, beq_iff_eq]
+    constructor
+    · intro h; rw [h]
+    · intro e
+      by_cases h1 : 1415 < c <;> by_cases h2 : 1415 < d
+      · rw [lowerOf_gt hs ho hce hsz c h1, lowerOf_gt hs ho hce hsz d h2] at e
+        exact enc32_inj c d (by omega) hc (by omega) hd e
+      · rw [lowerOf_gt hs ho hce hsz c h1, lowerOf_le hs ho hce hsz d (by omega)] at e
+        exact absurd e (enc_ne_table hs ho hce hsz c d h1 hc (by omega))
+      · rw [lowerOf_le hs ho hce hsz c (by omega), lowerOf_gt hs ho hce hsz d h2] at e
+        exact absurd e.symm (enc_ne_table hs ho hce hsz d c h2 hd (by omega))
+      · omega
+  · simp only [hgt, if_false, Bool.and_eq_true, beq_iff_eq]
+    rw [lowerOf_le hs ho hce hsz c (by omega), lowerOf_le hs ho hce hsz d (by omega), tableBytes_eq_iff]
+
+/-- the comparison loop of `equalsNocase` decides equality of the concatenated lower-cased groups -/
+theorem nocaseLoop_iff (A B : List (Nat × Nat)) (hA : ∀ p ∈ A, okPair p) (hB : ∀ p ∈ B, okPair p) :
+    nocaseLoop A B = true ↔ A.flatMap (fun p => lowerOf p.1) = B.flatMap (fun p => lowerOf p.1) := by
+  have lt : ∀ p : Nat × Nat, okPair p → p.1 < 2097152 := by
+    intro p hp; unfold okPair at hp; omega
+  have words : ∀ L : List (Nat × Nat), (∀ p ∈ L, okPair p) → ∀ w ∈ L.map (fun p => lowerOf p.1), Word w := by
+    intro L hL w hw
+    simp only [List.mem_map] at hw
+    obtain ⟨p, hp, rfl⟩ := hw
+    exact word_of_mapCode toLowercaseU8 lowerCut hs (by decide) (by rw [hsz]; decide) p.1 (lt p (hL p hp))
+  have key : nocaseLoop A B = true ↔ A.map (fun p => lowerOf p.1) = B.map (fun p => lowerOf p.1) := by
+    induction A generalizing B with
+    | nil => cases B <;> simp [nocaseLoop]
+    | cons a A' ih =>
+      cases B with
+      | nil => simp [nocaseLoop]
+      | cons b B' =>
+        have ha := lt a (hA a (by simp))
+        have hb := lt b (hB b (by simp))
+        have hstep := step_iff hs ho hce hsz a.1 b.1 ha hb
+        have ih' := ih B' (fun p hp => hA p (by simp [hp])) (fun p hp => hB p (by simp [hp]))
+        simp only [nocaseLoop, List.map_cons, List.cons.injEq]
+        by_cases hst : nocaseStep a.1 b.1 = true
+        · simp only [hst, if_true]
+          rw [ih']
+          constructor
+          · intro h; exact ⟨hstep.mp hst, h⟩
+          · intro h; exact h.2
+        · simp only [hst, Bool.false_eq_true, if_false, false_iff]
+          intro h; exact hst (hstep.mpr h.1)
+  rw [key, List.flatMap_def, List.flatMap_def]
+  constructor
+  · intro h; rw [h]
+  · intro h; exact flatten_inj _ _ (words A hA) (words B hB) h
+
+end nocase
 
 end AslProofs.Utf
